@@ -59,6 +59,8 @@ macro_rules! with_arity {
 /// run the call sequence through the real builder; Ok(()) or the error kind
 pub fn replay<T: Sc>(calls: &[(String, Vec<String>, i64)]) -> Result<Vec<String>, &'static str> {
     let mut b: Option<SeparableModelBuilder<T>> = None;
+    let mut p_calls = 0usize;
+    let mut last_p: Vec<T> = Vec::new();
     for (op, names, n) in calls {
         let cur = b.take();
         b = Some(match op.as_str() {
@@ -81,9 +83,12 @@ pub fn replay<T: Sc>(calls: &[(String, Vec<String>, i64)]) -> Result<Vec<String>
             "X" => cur
                 .expect("call before new")
                 .independent_variable(DVector::from_element(3, T::one())),
-            "P" => cur
-                .expect("call before new")
-                .initial_parameters(vec![T::one(); *n as usize]),
+            "P" => {
+                // every call gives its own values: the LAST call is the one that counts
+                p_calls += 1;
+                last_p = vec![T::of64(p_calls as f64); *n as usize];
+                cur.expect("call before new").initial_parameters(last_p.clone())
+            }
             other => panic!("unknown builder op {other}"),
         });
     }
@@ -92,8 +97,13 @@ pub fn replay<T: Sc>(calls: &[(String, Vec<String>, i64)]) -> Result<Vec<String>
             // C17: whatever the builder hands out is a model that never panics: exercise it
             use varpro::model::SeparableNonlinearModel;
             let mut panics = Vec::new();
-            if catch_unwind(AssertUnwindSafe(|| model.params())).is_err() {
-                panics.push("params()".to_string());
+            match catch_unwind(AssertUnwindSafe(|| model.params())) {
+                Err(_) => panics.push("params()".to_string()),
+                Ok(p) => {
+                    if !crate::sc::bits_eq(p.as_slice(), &last_p) {
+                        panics.push("PARAMS: the built model does not start at the parameters of the last initial_parameters call".to_string());
+                    }
+                }
             }
             if catch_unwind(AssertUnwindSafe(|| model.eval().map(|_| ()))).is_err() {
                 panics.push("eval()".to_string());
@@ -148,6 +158,8 @@ fn judge_calls<T: Sc>(idx: usize, l: &MbLine, calls: &[(String, Vec<String>, i64
         Err(_) => rep.violation("C15", det("builder panicked", "panic")),
         Ok(Ok(panics)) => {
             rep.check("C15", l.v, 0.0, || det("build() returned a model for an invalid specification", "Ok"));
+            let (wrong_start, panics): (Vec<String>, Vec<String>) = panics.into_iter().partition(|p| p.starts_with("PARAMS:"));
+            rep.check("C16", wrong_start.is_empty(), 0.0, || det("parameters given to the builder are not what the model reports", &wrong_start.join(", ")));
             rep.check("C17", panics.is_empty(), 0.0, || det("a model handed out by the builder panicked", &panics.join(", ")));
             if l.i != "ok" {
                 rep.count("spec_drift", 1);
@@ -216,6 +228,11 @@ fn beyond_universe<T: Sc>(rep: &mut Report) {
         v
     };
     let mut cases = cases;
+    for bad in ["a,", ",a", ",", ",,", "a, "] {
+        cases.push(("comma at the edge of a model parameter name", vec![c("N", &[bad], 0), c("F", &[bad], 1), c("D", &[bad], 1), c("X", &[], 0), c("P", &[], 1)], Some("CommaInParameterNameNotAllowed")));
+    }
+    cases.push(("initial parameters given twice (the second call counts)", vec![c("N", &["a", "b"], 0), c("P", &[], 2), c("F", &["b", "a"], 2), c("D", &["a"], 2), c("D", &["b"], 2), c("P", &[], 2), c("X", &[], 0)], None));
+    cases.push(("initial parameters given three times", vec![c("N", &["a"], 0), c("P", &[], 1), c("P", &[], 1), c("F", &["a"], 1), c("D", &["a"], 1), c("X", &[], 0), c("P", &[], 1)], None));
     cases.push(("seventy parameters, all used", seventy(None), None));
     cases.push(("seventy parameters, q64 unused", seventy(Some(64)), Some("UnusedParameter")));
     cases.push(("seventy parameters, q69 unused", seventy(Some(69)), Some("UnusedParameter")));
@@ -227,6 +244,8 @@ fn beyond_universe<T: Sc>(rep: &mut Report) {
             (Err(_), _) => rep.violation("C15", det("panic".into())),
             (Ok(Ok(panics)), None) => {
                 rep.ok("C15", 0.0);
+                let (wrong_start, panics): (Vec<String>, Vec<String>) = panics.into_iter().partition(|p| p.starts_with("PARAMS:"));
+                rep.check("C16", wrong_start.is_empty(), 0.0, || det(wrong_start.join(", ")));
                 rep.check("C17", panics.is_empty(), 0.0, || det(format!("built model panicked in {}", panics.join(", "))));
             }
             (Ok(Ok(_)), Some(_)) => rep.violation("C15", det("Ok".into())),
@@ -234,7 +253,7 @@ fn beyond_universe<T: Sc>(rep: &mut Report) {
             (Ok(Err(k)), None) => rep.violation("C15", det(k.to_string())),
         }
     }
-    rep.count("sequences_beyond_universe", 14);
+    rep.count("sequences_beyond_universe", 21);
 }
 
 pub fn run(path: &str) -> Report {
